@@ -109,6 +109,8 @@ pub fn arr_obj_wide() -> Vec<String> {
         "[{\"k\":\"b\",\"v\":2},{\"k\":\"a\",\"v\":2},{\"k\":\"c\",\"v\":1}]",
         "[{\"k\":1},{\"k\":\"a\"},{\"k\":null},{\"k\":[1]},{\"k\":{}}]",
         "[{\"v\":1,\"g\":\"x\"},{\"v\":2},{\"g\":\"x\",\"v\":3}]",
+        "[{\"k\":null,\"i\":0},{\"i\":1},{\"k\":1,\"i\":2},{\"i\":3},{\"k\":null,\"i\":4}]",
+        "[{\"a\":false},{\"a\":null},{},{\"a\":0},{\"a\":\"\"}]",
     ]
     .iter()
     .map(|s| s.to_string())
